@@ -8,7 +8,7 @@ import (
 var stmtKinds = []string{
 	"source", "sink", "decl", "assign", "store", "call", "methodcall", "ifacecall", "funcval", "closure", "defer",
 	"if", "for", "range", "switch", "typeswitch", "commaok", "chan", "copy", "mapops", "generic", "variadic",
-	"methodvalue", "structcopy", "return", "panic", "sanitize", "validate", "globalrw", "goto", "wild",
+	"methodvalue", "structcopy", "return", "panic", "sanitize", "validate", "globalrw", "goto", "wild", "probe", "go",
 }
 
 var sourceKinds = []struct {
@@ -460,6 +460,27 @@ func (g *gen) stmt() {
 		}
 	case "wild":
 		g.wildStmt()
+	case "go":
+		g.goStmt()
+	case "probe":
+		if !g.p.Probes {
+			return
+		}
+		kinds := []struct {
+			t  Type
+			fn string
+		}{{TPS, "probePS"}, {TPS, "probePS"}, {TPStr, "probeP"}, {TSlice, "probeL"}, {TMap, "probeM"}}
+		k := kinds[g.intn(len(kinds), "probekind")]
+		// probe every variable of the kind that is in scope (up to 4): aliases among them are what the check looks for
+		vs := g.varsOf(k.t)
+		if len(vs) > 4 {
+			vs = vs[len(vs)-4:]
+		}
+		for _, v := range vs {
+			g.nprobe++
+			g.emit("%s(%d, %s)", k.fn, g.nprobe, v.name)
+			g.feat("probe")
+		}
 	case "sanitize":
 		g.sanitizeStmt()
 	case "validate":
@@ -994,4 +1015,38 @@ func (g *gen) returnStmt() {
 		es = append(es, g.expr(r, 1))
 	}
 	g.emit("return %s", strings.Join(es, ", "))
+}
+
+// goStmt launches a goroutine: a closure sharing the variables in scope, or a helper called with shared arguments.
+// Every goroutine body is bracketed by gstart()/gdone() so that the native main can wait for all of them.
+func (g *gen) goStmt() {
+	if !g.p.Go || g.closureDepth >= 2 || g.inDefer {
+		return
+	}
+	g.feat("go")
+	cs := g.callees()
+	if len(cs) > 0 && g.chance(35, "gocallee") {
+		f := cs[g.intn(len(cs), "gocallee2")]
+		call := g.callExpr(f)
+		g.emit("gstart()")
+		g.emit("go func() {")
+		g.emit("\tdefer gdone()")
+		g.emit("\t%s", call)
+		g.emit("}()")
+		g.feat("go-helper-call")
+		return
+	}
+	g.emit("gstart()")
+	g.emit("go func() {")
+	g.indent++
+	g.emit("defer gdone()")
+	g.closureDepth++
+	g.block(1 + g.intn(4, "gon"))
+	g.closureDepth--
+	g.indent--
+	g.emit("}()")
+	g.feat("go-closure")
+	if g.chance(40, "yield") {
+		g.emit("yield()")
+	}
 }
